@@ -209,4 +209,39 @@ theorem members_flatten (k : κ) (chunks : List (List (κ × Nat))) :
     simp only [List.map_cons, List.flatMap_cons, List.flatten_cons, members_append]
     rw [ih, lookupGroup_spec]
 
+
+/-! ### keepFirst -/
+
+theorem keepFirstAux_spec {ρ : Type} : ∀ (l : List (κ × ρ)) (seen : List κ) (kept : List (κ × ρ)),
+    kept.map Prod.fst = seen →
+    (keepFirstAux (seen, kept) l).1 = addKeys seen (l.map Prod.fst) ∧
+    (keepFirstAux (seen, kept) l).2.map Prod.fst = (keepFirstAux (seen, kept) l).1 ∧
+    ∃ extra, (keepFirstAux (seen, kept) l).2 = kept ++ extra ∧ extra.Sublist l
+  | [], seen, kept, h => by simp [keepFirstAux, addKeys, h]
+  | r :: rs, seen, kept, h => by
+    by_cases hm : r.1 ∈ seen
+    · have ih := keepFirstAux_spec rs seen kept h
+      simp only [keepFirstAux, hm, if_true, List.map_cons]
+      rw [addKeys_cons_mem _ _ _ hm]
+      obtain ⟨h1, h2, extra, h3, h4⟩ := ih
+      exact ⟨h1, h2, extra, h3, List.Sublist.cons _ h4⟩
+    · have ih := keepFirstAux_spec rs (seen ++ [r.1]) (kept ++ [r]) (by simp [h])
+      simp only [keepFirstAux, hm, if_false, List.map_cons]
+      rw [addKeys_cons_not_mem _ _ _ hm]
+      obtain ⟨h1, h2, extra, h3, h4⟩ := ih
+      refine ⟨h1, h2, r :: extra, ?_, List.Sublist.cons₂ _ h4⟩
+      rw [h3]; simp
+
+/-- the kept rows carry exactly the distinct keys, each once, in order of first occurrence -/
+theorem keepFirst_keys {ρ : Type} (l : List (κ × ρ)) : (keepFirst l).map Prod.fst = firstOcc (l.map Prod.fst) := by
+  obtain ⟨h1, h2, _⟩ := keepFirstAux_spec l [] [] rfl
+  unfold keepFirst firstOcc
+  rw [h2, h1]
+
+/-- and they are rows of the input, in input order -/
+theorem keepFirst_sublist {ρ : Type} (l : List (κ × ρ)) : (keepFirst l).Sublist l := by
+  obtain ⟨_, _, extra, h3, h4⟩ := keepFirstAux_spec l [] [] rfl
+  unfold keepFirst
+  rw [h3]; simpa using h4
+
 end Csvq
